@@ -487,11 +487,53 @@ def encode_bytes(F, fn_path, hdr_prefix="", depth=0, known=None):
     # the calls on the way to the return: the same on every path (a branch that only asserts, as the expansion of
     # `debug_assert_eq!(bytes.len(), N)` does, decides nothing about what is written)
     can_return = {x for x in range(len(B.blocks)) if any(B.blocks[y]["term"]["k"] == "return" for y in B.reachable(x))}
+    # a `for x in [a, b, c, ..]` over an array written in place (`for group in [ip.0, .., ip.7] { bytes.extend(..) }`) is
+    # the body once per element: such a loop is unrolled — header h ↦ (calls of the body in order, the elements, the exit)
+    unroll = {}
+    for h, body in M.natural_loops(B):
+        th = B.blocks[h]["term"]
+        if not (th["k"] == "call" and re.search(r"array::IntoIter<T, N> as std::iter::Iterator>::next$", th.get("callee") or "") and th.get("t") is not None):
+            continue
+        it = B.sym_op(th["args"][0], through_vars=True)
+        while it[0] in ("ref", "deref"):
+            it = it[1]
+        if not (it[0] == "call" and (it[1] or "").endswith("into_iter") and it[2]):
+            continue
+        arr = it[2][0]
+        while arr[0] in ("ref", "deref"):
+            arr = arr[1]
+        if not (arr[0] == "agg" and arr[1] == "array"):
+            continue
+        sw = th["t"]
+        tsw = B.blocks[sw]["term"]
+        if tsw["k"] != "switch":
+            continue
+        inside = [x for x in B.succ(sw) if x in body and not B.blocks[x].get("cleanup")]
+        outside = [x for x in B.succ(sw) if x not in body and not B.blocks[x].get("cleanup") and x in can_return]
+        if len(inside) != 1 or len(outside) != 1:
+            continue
+        # the body: a single path back to the header
+        seq, cur, okb = [], inside[0], True
+        while cur != h:
+            if B.blocks[cur]["term"]["k"] == "call":
+                seq.append(cur)
+            nx = [x for x in B.succ(cur) if not B.blocks[x].get("cleanup")]
+            if len(nx) != 1 or nx[0] not in body or len(seq) > 40:
+                okb = False
+                break
+            cur = nx[0]
+        if okb:
+            unroll[h] = (seq, list(arr[2]), outside[0], ("call", th.get("callee"), None))
     paths, stack = [], [(0, (), frozenset())]
     while stack:
         b, cs, seen = stack.pop()
         if b in seen or len(paths) + len(stack) > 256:
             return None, "encoder %s is not loop-free (block %d)" % (fn_path, b)
+        if b in unroll:
+            seq, elems, exit_, _ = unroll[b]
+            cs = cs + tuple((bi, b, k) for k in range(len(elems)) for bi in seq)
+            stack.append((exit_, cs, seen | {b}))
+            continue
         t = B.blocks[b]["term"]
         if t["k"] == "call":
             cs = cs + (b,)
@@ -501,25 +543,42 @@ def encode_bytes(F, fn_path, hdr_prefix="", depth=0, known=None):
             continue
         for x in nxt:
             stack.append((x, cs, seen | {b}))
-    is_write = lambda bi: (B.blocks[bi]["term"].get("callee") or "").endswith(("Vec::<T, A>::push", "Vec::<T, A>::extend_from_slice"))
-    wseqs = {tuple(bi for bi in cs if is_write(bi)) for cs in paths}
+    blk_of = lambda e: e[0] if isinstance(e, tuple) else e
+    is_write = lambda e: (B.blocks[blk_of(e)]["term"].get("callee") or "").endswith(("Vec::<T, A>::push", "Vec::<T, A>::extend_from_slice"))
+    wseqs = {tuple(e for e in cs if is_write(e)) for cs in paths}
     if len(wseqs) != 1:
         return None, "encoder %s is not straight-line (%d different sequences of writes over its paths)" % (fn_path, len(wseqs))
     longest = max(paths, key=len) if paths else ()
-    calls = [B.blocks[bi]["term"] for bi in longest]
+    calls = [B.blocks[blk_of(e)]["term"] for e in longest]
+    tags = [(e[1], e[2]) if isinstance(e, tuple) else None for e in longest]
+
+    def loop_value(sym, tag):
+        """the term as it reads in round k of an unrolled loop: the item the iterator hands out is the k-th element"""
+        if tag is None or not isinstance(sym, tuple):
+            return sym
+        h_, k_ = tag
+        elems = unroll[h_][1]
+        def go(x):
+            if not isinstance(x, tuple):
+                return x
+            if x and x[0] == "field" and len(x) == 3 and str(x[2]) == "0" and isinstance(x[1], tuple) and x[1][0] == "downcast" and x[1][2] == "Some" \
+                    and isinstance(x[1][1], tuple) and x[1][1][0] == "call" and re.search(r"array::IntoIter<T, N> as std::iter::Iterator>::next$", x[1][1][1] or ""):
+                return elems[k_]
+            return tuple(go(y) for y in x)
+        return go(sym)
 
     def rename(bits):
         return [(("fld", hdr_prefix + x[1], x[2]) if isinstance(x, tuple) and x[0] == "fld" else x) for x in bits]
 
-    pushes = [t for t in calls if (t.get("callee") or "").endswith(("Vec::<T, A>::push", "Vec::<T, A>::extend_from_slice"))]
+    pushes = [(t, tg) for t, tg in zip(calls, tags) if (t.get("callee") or "").endswith(("Vec::<T, A>::push", "Vec::<T, A>::extend_from_slice"))]
     if not pushes and len(arrs) == 1:
         _, st = arrs[0]
         for op in st["rv"]["ops"]:
             out.append(rename(ev.bits(B.sym_op(op, through_vars=True), 8)[:8]))
         return out, None
-    for t in pushes:
+    for t, tg in pushes:
         c = t["callee"]
-        arg = B.sym_op(t["args"][1], through_vars=True)
+        arg = loop_value(B.sym_op(t["args"][1], through_vars=True), tg)
         if c.endswith("::push"):
             out.append(rename(ev.bits(arg, 8)[:8]))
             continue
